@@ -86,6 +86,7 @@ struct PipeCfg
   bool in_noseek = false; // the input is a pipe: every seek on it fails with ESPIPE
   long fsize_hint = -1;   // >= 0: the size the caller passes to execute_* (a pipe's size is unknown: the CLI passes 0); -1: the real size
   int hint_c = -1, hint_h = -1; // cipher / hash mode in the Settings of a decrypt / verify (-1: not given, as the CLI does without --cmode / --hmode)
+  unsigned char *key_buf = nullptr;  // the caller's own 16-byte key buffer is handed to runcrypt (not a private copy)
   unsigned char *seed_buf = nullptr; // the caller's own NUL-terminated seed buffer is handed to execute_encrypt (not a private copy): a
                                      // caller that keeps one seed buffer for several encryptions
   bool null_input = false; // the operation is given a NULL input stream (a file that could not be opened)
